@@ -80,7 +80,8 @@ func Cause(m string) string {
 		return "noExactPath"
 	case strings.Contains(m, "unable to find RW model path"):
 		return "noModelPath"
-	case strings.Contains(m, "not yet supported"), strings.Contains(m, "Not yet supported"), strings.Contains(m, "empty leaf list given"):
+	case strings.Contains(m, "not yet supported"), strings.Contains(m, "Not yet supported"), strings.Contains(m, "empty leaf list given"),
+		strings.Contains(m, "NaN is not supported"), strings.Contains(m, "decimal64 precision"):
 		return "valueConv"
 	case strings.Contains(m, "does not match pattern"):
 		return "indexChars"
